@@ -705,7 +705,7 @@ def runCall (g : G) (t : Tid) (script : List Nat) : Nat → G
       | ⟨_, _, _, .block⟩ :: _ => g2
       | _ => runCall g2 t script.tail fuel
 
-def seqFuel : Nat := 64
+def seqFuel : Nat := 16
 
 /-- `op` on thread `t`, sequentially -/
 def G.call (g : G) (t : Tid) (op : Op) (script : List Nat := []) : G :=
